@@ -33,7 +33,9 @@ impl Cfg {
 
 pub const PAUSE_SITES: &[u32] = &[rv::SM_SYNC_LOCKED, rv::SM_SYNC_EACH_ENTRY, rv::SM_SYNC_EACH_SENTINEL, rv::SM_CREATE_AFTER_COUNTERS, rv::SM_CREATE_AFTER_ID, rv::SM_CREATE_AFTER_FLAG,
     rv::SM_DROPPED_AFTER_WAKER, rv::SM_DROPPED_AFTER_COUNTERS, rv::SM_DROPPED_AFTER_VACANT, rv::MULTI_FANOUT_BEFORE_COUNT, rv::MULTI_FANOUT_AFTER_INCREMENT, rv::MULTI_FANOUT_BEFORE_ENTRY,
-    rv::MULTI_FANOUT_BEFORE_PUBLISH, rv::MMAP_CREATE_AFTER_SUBSCRIBE, rv::MMAP_CREATE_AFTER_ID, rv::MMAP_SUBSCRIBE_AFTER_TAIL];
+    rv::MULTI_FANOUT_BEFORE_PUBLISH, rv::MMAP_CREATE_AFTER_SUBSCRIBE, rv::MMAP_CREATE_AFTER_ID, rv::MMAP_SUBSCRIBE_AFTER_TAIL,
+    // (inside a consume: a listener's poll -- and whatever a drop does with the listener's queue, e.g. discarding what was left unconsumed)
+    rv::AM_CONSUME_AFTER_RESERVE, rv::AM_CONSUME_AFTER_READ, rv::FS_CONSUME_LOCKED, rv::FS_CONSUME_AFTER_READ];
 
 pub fn draw_cfg(rng: &mut Rng, only: Option<&str>, lane: Lane) -> Cfg {
     let kinds: Vec<Kind> = chan::MULTI_KINDS.iter().copied().filter(|k| only.map(|o| k.name() == o).unwrap_or(true)).collect();
@@ -47,7 +49,7 @@ pub fn draw_cfg(rng: &mut Rng, only: Option<&str>, lane: Lane) -> Cfg {
     if kind.never_rejects() && n > 0 { while per_prod as usize * nprod > n { if per_prod > 1 { per_prod -= 1 } else { nprod -= 1 } } }
     let mut es = entries_for(kind); es.retain(|e| *e != Entry::SendAsyncSuspended);
     let entries: Vec<Entry> = (0..nprod).map(|_| *rng.pick(&es)).collect();
-    let churners = if steady + 2 <= m && rng.chance(1, 3) { 2 } else { 1 };
+    let churners = if steady + 2 <= m && rng.chance(1, 2) { 2 } else { 1 };
     let drain = rng.chance(1, 2);
     Cfg { kind, n, m, steady, entries, per_prod, churns: 1 + rng.below(if lane == Lane::Free { 12 } else { 3 }) as u32, churn_polls: rng.below(4) as u32, hold: Hold::Release, churners, drain }
 }
